@@ -14,7 +14,10 @@ VERIF = os.path.dirname(os.path.dirname(os.path.abspath(__file__)))
 REPO = os.environ.get("VERIF_REPO", "/repo")
 SEED = int(os.environ.get("VERIF_SEED", "1") or "1")
 JOBS = int(os.environ.get("VERIF_JOBS", "0") or "0") or min(16, os.cpu_count() or 1)
-SCALE = float(os.environ.get("VERIF_SCALE", "1") or "1")   # multiplies run counts (used by the sensitivity harness)
+SCALE = float(os.environ.get("VERIF_SCALE", "1") or "1")
+EVDIR = os.environ.get("VERIF_EVIDENCE_DIR", "evidence")
+RPDIR = os.environ.get("VERIF_REPLAY_DIR", "replays")
+NO_STATIC = os.environ.get("VERIF_NO_STATIC", "") == "1"   # sensitivity harness only: disable the C19 symbol side check   # multiplies run counts (used by the sensitivity harness)
 
 ENGINE = {"C11": "stream", "C12": "stream", "C13": "stream", "C20": "stream", "C15": "prng", "C16": "prng", "C17": "prng", "C18": "trng", "C19": "mix"}
 LEVEL = {p: "exploration" for p in ENGINE}
@@ -139,8 +142,8 @@ def main():
         print("unknown or unclaimed property", prop); sys.exit(2)
     os.chdir(VERIF)
     os.makedirs("build/tmp", exist_ok=True)
-    os.makedirs("replays", exist_ok=True)
-    os.makedirs("evidence", exist_ok=True)
+    os.makedirs(RPDIR, exist_ok=True)
+    os.makedirs(EVDIR, exist_ok=True)
 
     if len(sys.argv) >= 4 and sys.argv[2] == "--replay":
         path = sys.argv[3]
@@ -185,7 +188,7 @@ def main():
     for jobs in ((5, 16) if tier == "quick" else (1, 5, 16)):
         out = "build/tmp/det-%s-%d.txt" % (prop, jobs)
         r = sh([sims[first], "run", "--engine", engine, "--prop", prop, "--tier", tier, "--seed", str(SEED + 7919), "--runs", str(nd), "--jobs", str(jobs), "--no-baseline",
-                "--dump-hashes", out, "--out", "build/tmp/det-%s.json" % prop, "--replay-dir", "replays", "--tree", tid] + sum([["--known", k["signature"]] for k in known], []),
+                "--dump-hashes", out, "--out", "build/tmp/det-%s.json" % prop, "--replay-dir", RPDIR, "--tree", tid] + sum([["--known", k["signature"]] for k in known], []),
                stdout=subprocess.PIPE, stderr=subprocess.DEVNULL, text=True)
         if r.returncode == 1:
             sys.stdout.write(r.stdout)
@@ -208,7 +211,7 @@ def main():
             out = "build/tmp/res-%s-%s.json" % (prop, variant)
             cap = 45 if tier == "quick" else (600 if variant in ("prod", "hook") or variant.startswith("trng") else 240)
             cmd = [sims[variant], "run", "--engine", engine, "--prop", prop, "--tier", tier, "--seed", str(SEED), "--runs", str(max(1, n)), "--jobs", str(JOBS),
-                   "--out", out, "--replay-dir", "replays", "--time-cap", str(cap), "--tree", tid] + extra
+                   "--out", out, "--replay-dir", RPDIR, "--time-cap", str(cap), "--tree", tid] + extra
             for k in known:
                 cmd += ["--known", k["signature"]]
             r = sh(cmd, stdout=subprocess.PIPE, stderr=subprocess.PIPE, text=True)
@@ -231,11 +234,11 @@ def main():
 
     # ---- C19 side check on the shipped objects (not the deciding step; the statement's first sentence)
     side = None
-    if prop == "C19" and not violation and not fault:
+    if prop == "C19" and not violation and not fault and not NO_STATIC:
         syms, heap, imports = side_check_symbols(prop, sims["prod"])
         side = {"writable_symbols_in_prod_objects": syms, "heap_imports": heap, "imports": imports}
         if syms or heap:
-            path = "replays/C19-static-%s.json" % hashlib.sha256((" ".join(syms + heap)).encode()).hexdigest()[:10]
+            path = RPDIR + "/C19-static-%s.json" % hashlib.sha256((" ".join(syms + heap)).encode()).hexdigest()[:10]
             json.dump({"kind": "static", "property": "C19", "class": "writable-static-data" if syms else "heap-import", "symbols": syms, "heap_imports": heap, "tree": tid}, open(path, "w"), indent=1)
             print("VIOLATION property=C19 replay=%s" % path)
             print("  class=%s the objects built from the working tree contain writable data symbols %s / allocator imports %s" % ("writable-static-data" if syms else "heap-import", syms[:6], heap))
@@ -317,7 +320,7 @@ def main():
         ev["coverage"]["violation"] = violation
     if fault:
         ev["coverage"]["harness_fault"] = fault
-    json.dump(ev, open("evidence/%s.json" % prop, "w"), indent=1)
+    json.dump(ev, open("%s/%s.json" % (EVDIR, prop), "w"), indent=1)
 
     for f in json.load(open("known_findings.json")).get("findings", []) if os.path.exists("known_findings.json") else []:
         if f.get("property") == prop and f.get("status") == "open":
